@@ -20,10 +20,17 @@
     - [env S d] is the envelope above as a boolean predicate (ClientGenSpec.v); a response key may
       be selected several times in one selection set (field merging): "distinct ignoring letter
       case" constrains different keys only;
-    - the two known findings are explicit exclusions: [excl_member_clash] (a response key and a
-      fragment of one selection set derive the same Go field name) and [excl_decl_clash] (two
-      generated declarations get the same identifier, or a schema / fragment name is used where
-      Go cannot take it);
+    - [generate_real] is the generator of the current tree (LoadSchema, then the generator with the
+      repair "two members of a selection set the same struct field": clashing members get
+      underscores appended); [generate] / [generate_cli] is the generator up to that repair, on which
+      the proofs are carried out; [C20_generators_agree]: they return the same program whenever no
+      two members of a selection set derive the same field name ([excl_member_clash] = false).
+      PARTIAL: for selection sets WITH such a clash the repaired generator is covered by the
+      correspondence check and the oracle only (every clash case compiles with go/types and decodes;
+      witness [C20_fixed_member_name_clash]); the full statements - the three main theorems without
+      the hypothesis [excl_member_clash S d = false] - are not proved.
+    - [excl_decl_clash] (two generated declarations get the same identifier, or a schema / fragment
+      name is used where Go cannot take it) is a known finding of the code;
     - "compiles" is [wf_program]: PARTIAL — it is the modelled part (distinct field names per
       struct, statement groups of every UnmarshalJSON refer to existing fields, every referenced
       type declared, forwarders only to types that have the method; the identifier conditions
@@ -44,14 +51,21 @@ From Coq Require Import List NArith Bool String.
 Open Scope string_scope.
 From ApiFu Require Import Base.Sexp Gen.GoTypes Gen.ClientGenModel Gen.DecodeModel Gen.ClientGenSpec
      Gen.ClientGenMain Gen.ClientGenWitness Gen.ClientGenDeclSafe Gen.LoadSchemaModel Gen.LoadSchemaProofs
-     Gen.ClientGenClauses.
+     Gen.ClientGenAgree Gen.ClientGenClauses.
 Import ListNotations.
 
 (** the generator accepts every operation of the envelope and its output is well formed *)
 Theorem C20_gen_wf_partial : forall S d,
   env S d = true -> schema_loadable S = true -> excl_member_clash S d = false -> decl_safe S d = true ->
-  exists p, generate_cli no_quirks S (doc_valid S d) d = GOk p /\ wf_program p = true.
-Proof. exact cli_accepts_wf. Qed.
+  exists p, generate_real S (doc_valid S d) d = GOk p /\ wf_program p = true.
+Proof. exact real_accepts_wf. Qed.
+
+(** the generator of the current tree and the generator the proofs are carried out on agree when no
+    two members of a selection set derive the same field name *)
+Theorem C20_generators_agree : forall S d,
+  env S d = true -> excl_member_clash S d = false -> decl_safe S d = true -> schema_loadable S = true ->
+  generate_real S (doc_valid S d) d = generate_cli no_quirks S (doc_valid S d) d.
+Proof. exact generate_real_agree. Qed.
 
 (** LoadSchema rebuilds a field type from what the introspection query returns for it: exactly,
     for every chain of at most seven wrappers in any order ([T]! is not [T!]) ... *)
@@ -64,10 +78,10 @@ Proof. exact load_schema_roundtrip. Qed.
 
 (** ... and not at all beyond (known finding type-ref-deeper-than-introspection-query): the
     command-line generator then reports an error for every document *)
-Theorem C20_refuted_type_ref_depth : forall Q S valid d n ifs fs f t,
+Theorem C20_refuted_type_ref_depth : forall S valid d n ifs fs f t,
   In (DObj n ifs fs) (s_types S) -> In (f, t) fs -> (typeref_depth < wrappers t)%nat ->
-  generate_cli Q S valid d = GError.
-Proof. exact generate_cli_too_deep. Qed.
+  generate_real S valid d = GError.
+Proof. exact real_too_deep. Qed.
 
 (** the names-only condition excludes the known finding decl-name-clash (struct-counter invariant:
     sel<T1><n1> = sel<T2><n2> only if n1 = n2, when no composite type name ends in a digit) *)
@@ -80,28 +94,28 @@ Proof. exact decl_safe_excl. Qed.
     forwarders only to types with the method, identifiers *)
 Theorem C20_gen_wf_clauses_partial : forall S d,
   env S d = true -> schema_loadable S = true -> excl_member_clash S d = false -> decl_safe S d = true ->
-  exists p, generate_cli no_quirks S (doc_valid S d) d = GOk p /\
+  exists p, generate_real S (doc_valid S d) d = GOk p /\
             cl_struct_members p /\ cl_references p /\ cl_method_forwarders p /\ cl_identifiers p.
-Proof. exact cli_wf_clauses. Qed.
+Proof. exact real_wf_clauses. Qed.
 
 (** decoding any response shaped by a named operation yields exactly the selected leaves *)
-Theorem C20_gen_decodes : forall S d,
+Theorem C20_gen_decodes_partial : forall S d,
   env S d = true -> schema_loadable S = true -> excl_member_clash S d = false -> decl_safe S d = true ->
   forall p o opname w,
-    generate_cli no_quirks S (doc_valid S d) d = GOk p ->
+    generate_real S (doc_valid S d) d = GOk p ->
     In o (d_ops d) -> op_name o = Some opname -> conforms S o w = true ->
     exists n v, (forall fuel, (n <= fuel)%nat -> decode_op p fuel opname (json_of w) = DOk v) /\
                 (forall pl, In pl (leaves v) <-> In pl (expected S o w)).
-Proof. exact cli_decodes. Qed.
+Proof. exact real_decodes. Qed.
 
 (** operations that fail validation are rejected and nothing is generated (whatever the flags) *)
 Theorem C20_gen_invalid_no_output : forall Q S d,
   doc_valid S d = false -> generate Q S (doc_valid S d) d = GRejected.
 Proof. exact gen_invalid_no_output. Qed.
 
-Theorem C20_cli_invalid_no_output : forall Q S d p,
-  doc_valid S d = false -> generate_cli Q S (doc_valid S d) d <> GOk p.
-Proof. exact cli_invalid_no_output. Qed.
+Theorem C20_real_invalid_no_output : forall S d p,
+  doc_valid S d = false -> generate_real S (doc_valid S d) d <> GOk p.
+Proof. exact real_invalid_no_output. Qed.
 
 (** the defects repaired in the repository, reproduced on the model of the code before each
     repair ([quirks]): each operation is in the envelope and violates the statements above *)
@@ -135,31 +149,49 @@ Theorem C20_refuted_before_fix_repeated_key :
     (fun p => negb (leaves_agree p ex_schema (hd opM (d_ops docM)) "M" respM)) = true.
 Proof. exact refuted_before_fix_field_merge. Qed.
 
-(** the known findings: without the exclusions the statement about [wf_program] is false of the
-    current code *)
-Theorem C20_refuted_member_name_clash :
+(** member-name-clash (repaired, fix "two members of a selection set the same struct field"): on
+    the generator up to that repair the output is not well formed ... *)
+Theorem C20_refuted_before_fix_member_name_clash :
   env ex_schema docK1 = true /\ excl_member_clash ex_schema docK1 = true /\
   generated_and (generate no_quirks ex_schema (doc_valid ex_schema docK1) docK1) (fun p => negb (wf_program p)) = true.
 Proof. exact refuted_member_name_clash. Qed.
 
+(** ... with the repair the clashing members get distinct fields; the output is well formed and
+    decodes (fragment labels compared up to the appended underscores); two instances: a response
+    key against an inline fragment, and typename__ next to __typename together with a response key
+    equal to the type's name *)
+Theorem C20_fixed_member_name_clash :
+  env ex_schema docK1 = true /\ excl_member_clash ex_schema docK1 = true /\
+  generated_and (generate_s ex_schema (doc_valid ex_schema docK1) docK1)
+    (fun p => wf_program p && leaves_agree_norm p ex_schema (hd opM (d_ops docK1)) "K" respK1) = true /\
+  env ex_schema docK3 = true /\ excl_member_clash ex_schema docK3 = true /\
+  generated_and (generate_s ex_schema (doc_valid ex_schema docK3) docK3)
+    (fun p => wf_program p && leaves_agree_norm p ex_schema (hd opM (d_ops docK3)) "K" respK3) = true.
+Proof. exact fixed_member_name_clash. Qed.
+
+(** the known finding decl-name-clash: without [decl_safe] the statement about [wf_program] is false
+    of the current code *)
+
 Theorem C20_refuted_decl_name_clash :
-  env schemaK2 docK2 = true /\ excl_member_clash schemaK2 docK2 = false /\ excl_decl_clash schemaK2 docK2 = true /\
-  generated_and (generate no_quirks schemaK2 (doc_valid schemaK2 docK2) docK2) (fun p => negb (wf_program p)) = true.
-Proof. exact refuted_decl_name_clash. Qed.
+  env schemaK2 docK2 = true /\ excl_member_clash schemaK2 docK2 = false /\ decl_safe schemaK2 docK2 = false /\
+  generated_and (generate_s schemaK2 (doc_valid schemaK2 docK2) docK2) (fun p => negb (wf_program p)) = true.
+Proof. exact refuted_decl_name_clash_real. Qed.
 
 Print Assumptions C20_gen_wf_partial.
 Print Assumptions C20_decl_safe_sufficient.
 Print Assumptions C20_load_type_roundtrip.
 Print Assumptions C20_load_schema_roundtrip.
 Print Assumptions C20_refuted_type_ref_depth.
-Print Assumptions C20_cli_invalid_no_output.
+Print Assumptions C20_real_invalid_no_output.
 Print Assumptions C20_gen_wf_clauses_partial.
-Print Assumptions C20_gen_decodes.
+Print Assumptions C20_gen_decodes_partial.
+Print Assumptions C20_generators_agree.
+Print Assumptions C20_fixed_member_name_clash.
 Print Assumptions C20_gen_invalid_no_output.
 Print Assumptions C20_refuted_before_fix_27.
 Print Assumptions C20_refuted_before_fix_28.
 Print Assumptions C20_refuted_before_fix_29.
 Print Assumptions C20_refuted_before_fix_union_condition.
 Print Assumptions C20_refuted_before_fix_repeated_key.
-Print Assumptions C20_refuted_member_name_clash.
+Print Assumptions C20_refuted_before_fix_member_name_clash.
 Print Assumptions C20_refuted_decl_name_clash.
